@@ -205,6 +205,12 @@ def audit(modules):
     return rc, ths, out
 
 
+def leancheck(modules):
+    """the toolchain's independent re-checker on the compiled property modules (and everything they import)"""
+    rc, out = run(["lake", "env", "leanchecker"] + modules, cwd=LEAN, timeout=3600)
+    return rc == 0, out
+
+
 def build_harness(race=False):
     """go build of tools/harness against REPO's working tree (module `replace`).  The sources are
     staged into build/harness-src so that go.mod / go.sum can point at REPO without touching the
@@ -664,7 +670,7 @@ def finish(res, mod, samples, evaluations, nontrivial, rule, extra_cov=None):
 
 
 TRUSTED_BASE = [
-    "Lean 4.33.0 kernel (leanchecker re-check in thorough tier)",
+    "Lean 4.33.0 kernel (leanchecker re-checks the compiled property modules in the thorough tier)",
     "axioms allowed: propext, Classical.choice, Quot.sound (audited per theorem on every run; no native_decide, no bv_decide)",
     "tools/extract (Go, go/ast): transcription of tables/constants/switch classes from /repo's working tree into lean/Gv/Gen",
     "tools/harness (Go) + driver (python): correspondence check model vs implementation, generators, canonicalisation",
@@ -706,6 +712,12 @@ def generic_check(mod, tier, seed):
                 res.add_obligation("axiom-audit-ran", False, "audit", aout[-1500:])
         toks = forbidden_token_scan()
         res.add_obligation("no-forbidden-tokens(sorry/admit/axiom/native_decide/bv_decide/...)", not toks, "audit", "; ".join(toks))
+        lc_fail = None
+        if bok and tier == "thorough":
+            lok, lout = leancheck(mod.LEAN_MODULES)
+            res.add_obligation("leanchecker re-checks the compiled property modules", lok, "audit", "" if lok else lout[-800:])
+            if not lok:
+                lc_fail = "leanchecker rejected a compiled module: " + lout[-300:]
         hok, hout, _, binpath = build_harness()
         res.add_obligation("harness-builds-against-working-tree", hok, "tie", "" if hok else hout[-800:])
         if getattr(mod, "NEEDS_BINARY", False):
@@ -737,6 +749,8 @@ def generic_check(mod, tier, seed):
         broken_names.append("T1 regeneration: " + out[-300:])
     if audit_fail:
         broken_names.append(audit_fail)
+    if lc_fail:
+        broken_names.append(lc_fail)
 
     if not hok:
         p = write_replay(mod.ID, "harness-build", {"obligation": "harness-builds-against-working-tree", "output": hout[-3000:]})
